@@ -35,6 +35,11 @@ impl<P: Protocol> GenericCloud<MockDevice, P, MockSocket, MockTimeSource> {
     pub fn v_housekeep(&mut self) -> bool {
         self.housekeep().is_ok()
     }
+    /// what a node does last when it shuts down (end of `run`): CLOSE to every peer
+    pub fn v_close(&mut self) {
+        let mut buffer = MsgBuffer::new(SPACE_BEFORE);
+        let _ = self.broadcast_msg(MESSAGE_TYPE_CLOSE, &mut buffer);
+    }
     /// the beacon path: `connect_sock` with an address as the beacon decoder returns it (a plain IPv4 socket address)
     pub fn v_connect_sock_v4(&mut self, port: u16) {
         let a: SocketAddr = format!("127.0.0.1:{}", port).parse().unwrap();
